@@ -36,3 +36,15 @@ with open(os.path.join(HERE, 'sa', 'known_functions.txt'), 'w') as fh:
     for n in sorted(names):
         fh.write(n + '\n')
 print(len(names), 'functions')
+# fingerprints of the private functions (sa/fingerprint.py): a private function that is only renamed is recognised by them
+from sa import fingerprint as fp  # noqa
+rows = []
+for name, mod in sorted(ix.modules.items()):
+    raw = ast.parse(mod.source)
+    for owner, defs in sorted(fp.private_defs(name, raw).items()):
+        for n, fdef in sorted(defs.items()):
+            rows.append('%s %s %s' % (owner, n, fp.fingerprint(fdef)))
+with open(os.path.join(HERE, 'sa', 'known_fingerprints.txt'), 'w') as fh:
+    fh.write('# owner name fingerprint of the private functions of the tree the rule tables were confirmed on\n')
+    fh.write('\n'.join(rows) + '\n')
+print(len(rows), 'private functions fingerprinted')
